@@ -922,6 +922,35 @@ def targeted_specs(rng, tier):
         gates += _rot_layer(rng, range(2))
         specs.append(dict(kind="roundtrip", it=-2, n=2, form=("dict_explicit" if i % 2 else "single_cut_gates"), gates=gates,
                           labels=[T("A"), T("B")], obs=_dense_obs(rng, 2, 3) + [[3, 3]], idle=[], stream="near_special_kak"))
+    # (i) a qubit whose ONLY instructions are marked cut gates, automatic labels: it is not idle and must be kept
+    for i in range(8 * rep):
+        n = 3 + (i % 2)
+        t = [n - 1, 0, 1][i % 3]                                 # the qubit touched only by cut gates
+        others = [q for q in range(n) if q != t]
+        g1 = [("cx", []), ("cz", []), ("rzz", [0.9]), ("crx", [0.8])][i % 4] if i < 4 else \
+            SIX_MAP_GATES[int(rng.integers(0, len(SIX_MAP_GATES)))]
+        gates = _rot_layer(rng, others)
+        if len(others) == 3:
+            gates.append(_g2(("cx", []), others[1], others[2]))
+        gates.append(_g2(g1, others[0], t, cut=True) if i % 2 == 0 else _g2(g1, t, others[0], cut=True))
+        gates += _rot_layer(rng, others)
+        if i % 4 >= 2:                                           # a second cut gate on the same lonely qubit
+            gates.append(_g2(SIX_MAP_GATES[int(rng.integers(0, len(SIX_MAP_GATES)))], t, others[1], cut=True))
+        gates.append(_g2(("cz", []), others[0], others[1]))
+        obs = [[3 if q == t else int(rng.integers(0, 4)) for q in range(n)], [1 if q == t else 3 for q in range(n)]]
+        obs += _dense_obs(rng, n, 1)
+        specs.append(dict(kind="roundtrip", it=-2, n=n, form=("dict_auto" if i % 2 == 0 else "dict_marked"), gates=gates,
+                          labels=[T(None)] * n, obs=obs, idle=[], stream="only_cut_gates"))
+    # (j) controlled rotations and cp with |theta| in (pi, 4 pi): theta is NOT periodic mod 2 pi for them
+    big = [1.5 * math.pi, -2.5 * math.pi, 3.3 * math.pi, -1.2 * math.pi, 2.7 * math.pi, -3.9 * math.pi]
+    for i in range(6 * rep):
+        nm = ["crx", "cry", "crz", "cp", "crx", "cry"][i % 6]
+        th = big[i % 6] if i < 6 else float(rng.choice([-1, 1]) * rng.uniform(1.05 * math.pi, 3.95 * math.pi))
+        gates = _rot_layer(rng, range(2)) + [dict(name=nm, params=[th], qubits=[0, 1] if i % 2 == 0 else [1, 0], cut=True)]
+        gates += _rot_layer(rng, range(2))
+        form = ["dict_explicit", "single_cut_gates", "dict_auto"][i % 3]
+        specs.append(dict(kind="roundtrip", it=-2, n=2, form=form, gates=gates, labels=[T("A"), T("B")],
+                          obs=_dense_obs(rng, 2, 3) + [[3, 3]], idle=[], stream="big_angle_controlled"))
     return specs
 
 
@@ -961,7 +990,8 @@ def generate(rng, tier, outdir):
              "above an identity inside a partition; resets (mid-circuit and last on a measured qubit); shapes (several quantum "
              "registers, labels as str/tuple, pre-placed TwoQubitQPDGates under explicit labels across and inside partitions); "
              "histories (.definition read before the call, a finite-budget generate first, descending gate ids for cut_gates); "
-             "rzx / xx_plus_yy / xx_minus_yy at 1e-4..1e-6 off the special angles. The uniform stream also draws resets, "
+             "rzx / xx_plus_yy / xx_minus_yy at 1e-4..1e-6 off the special angles; a qubit touched only by marked cut gates under "
+             "automatic labels; crx/cry/crz/cp with |theta| in (pi, 4 pi). The uniform stream also draws resets, "
              "registers, tuple labels, pre-placed gates and histories. "
              "distinct = distinct Coq case literal; non-trivial = at least one cut reconstructed, or a refusal",
     )
